@@ -20,7 +20,7 @@ import (
 func init() { register("C18", checkC18) }
 
 func checkC18(c *core.Ctx) {
-	c.Explainf("C18 (decided clauses). R1 worklist discipline in File.Generate: imports are appended to the worklist only past the miss edge of the `imported[path]` test and the path is marked imported on that path, so every file's imports are expanded once and the loop is bounded by the number of distinct paths. R2: the directory an import path is joined to depends on the worklist element (the importing file), not on a value computed once from the root file. R2 also: no map in the worklist loop is keyed by the import string as written (only by the joined path). R3f: AddEdge stores every edge it is given, unconditionally. R3e: whatever the form of the search, the set whose membership reports a cycle never gains the target of an edge inside the edge loop (a node is on the path when it is entered, not when it is queued: otherwise a diamond is reported as a cycle). R3 DFS discipline in dgraph.findCycle: the node is pushed on the stack on entry and popped on every non-cycle exit, the cycle test consults the stack before recursing, and nodes already fully explored are not descended into again (otherwise shared sub-graphs are re-walked exponentially). R4: both import modes cover every definition kind of File (combined mode appends every slice-typed field of File but Imports; separate mode namespaces and appends every record/enum kind), and FindCycle runs iff the mode is separate, before any output is written. R5: a graph edge is added for every import occurrence, before the de-duplication `continue`. R6: the generator's source, folded by the evaluator over an import scenario (root -> sub/a.bop -> deep/b.bop -> c.bop, each next to its importer) served from a virtual file system, opens each file relative to its importer, and in both modes the emitted file type-checks; combined mode declares every type the imported files define. NOT decided: 'exactly when cyclic' for files without go_package (node \"\"); wire equivalence with the inlined schema (C01-C03 on the concatenation).")
+	c.Explainf("C18 (decided clauses). R1 worklist discipline in File.Generate: imports are appended to the worklist only past the miss edge of the `imported[path]` test and the path is marked imported on that path, so every file's imports are expanded once and the loop is bounded by the number of distinct paths. R2: the directory an import path is joined to depends on the worklist element (the importing file), not on a value computed once from the root file. R2 also: no map in the worklist loop is keyed by the import string as written (only by the joined path). R2c: the key of the set of files already expanded is not glued together from strings (+, Sprintf, strings.Join) without cleaning: one spelling per file. R3f: AddEdge stores every edge it is given, unconditionally. R3e: whatever the form of the search, the set whose membership reports a cycle never gains the target of an edge inside the edge loop (a node is on the path when it is entered, not when it is queued: otherwise a diamond is reported as a cycle). R3 DFS discipline in dgraph.findCycle: the node is pushed on the stack on entry and popped on every non-cycle exit, the cycle test consults the stack before recursing, and nodes already fully explored are not descended into again (otherwise shared sub-graphs are re-walked exponentially). R4: both import modes cover every definition kind of File (combined mode appends every slice-typed field of File but Imports; separate mode namespaces and appends every record/enum kind), and FindCycle runs iff the mode is separate, before any output is written. R5: a graph edge is added for every import occurrence, before the de-duplication `continue`. R6: the generator's source, folded by the evaluator over an import scenario (root -> sub/a.bop -> deep/b.bop -> c.bop, each next to its importer) served from a virtual file system, opens each file relative to its importer, and in both modes the emitted file type-checks; combined mode declares every type the imported files define. NOT decided: 'exactly when cyclic' for files without go_package (node \"\"); wire equivalence with the inlined schema (C01-C03 on the concatenation).")
 	p := loadRepo(c)
 	if p == nil {
 		return
@@ -214,6 +214,57 @@ func checkC18(c *core.Ctx) {
 		walk(st, nil)
 	}
 	c.Check("R5", "a graph edge is added for every import occurrence", pos, edgeOK, whyEdge+": AddEdge must run on every way round the loop (before the de-duplication `continue`, or in its own block), or a package imported twice contributes one edge only and a cycle through the second import is not seen")
+	// R2c: the set that tells files already expanded from new ones is keyed by
+	// a path in one spelling per file. A key glued together from directory and
+	// import string keeps "./", "../" and doubled separators as written, so one
+	// file reached by two spellings is expanded — and its definitions emitted —
+	// twice. Reported only where the gluing is seen; any other unknown
+	// construction leaves R2 UNDECIDED below.
+	if seen != nil {
+		ast.Inspect(loop.Body, func(n ast.Node) bool {
+			ix, ok := n.(*ast.IndexExpr)
+			if !ok {
+				return true
+			}
+			mid, ok := ast.Unparen(ix.X).(*ast.Ident)
+			if !ok || info.ObjectOf(mid) != seen {
+				return true
+			}
+			key := ast.Unparen(ix.Index)
+			kid, isId := key.(*ast.Ident)
+			glued := func(e ast.Expr) bool {
+				e = ast.Unparen(e)
+				if b, ok := e.(*ast.BinaryExpr); ok && b.Op == token.ADD {
+					if t, ok := info.TypeOf(b).Underlying().(*types.Basic); ok && t.Info()&types.IsString != 0 {
+						return true
+					}
+				}
+				if call, ok := e.(*ast.CallExpr); ok {
+					if cal := load.Callee(info, call); cal != nil && cal.Pkg() != nil {
+						q := cal.Pkg().Path() + "." + cal.Name()
+						return q == "fmt.Sprintf" || q == "fmt.Sprint" || q == "strings.Join"
+					}
+				}
+				return false
+			}
+			bad := glued(key)
+			if isId {
+				ast.Inspect(loop.Body, func(m ast.Node) bool {
+					if as, ok := m.(*ast.AssignStmt); ok && len(as.Lhs) == len(as.Rhs) {
+						for i, l := range as.Lhs {
+							if lid, ok := l.(*ast.Ident); ok && info.ObjectOf(lid) == info.ObjectOf(kid) && glued(as.Rhs[i]) {
+								bad = true
+							}
+						}
+					}
+					return true
+				})
+			}
+			c.Check("R2c", "the set of files already expanded is keyed by a path in one spelling per file", pos, !bad,
+				"the key "+wire.Canon(ix.Index)+" ("+p.Pos(ix.Pos())+") is glued together from strings and not cleaned (filepath.Join / Clean): the same file imported as \"z.bop\" and \"./z.bop\" is expanded twice and its definitions are emitted twice")
+			return true
+		})
+	}
 	// R2
 	if joinCall == nil || len(joinCall.Args) < 2 || elemVar == nil {
 		c.Undecide("import path construction not recognised (filepath.Join / worklist element)")
@@ -844,6 +895,10 @@ func importScenarioRules(c *core.Ctx, p *load.Prog) {
 			pos := "gen.go (File.Generate)"
 			if ir.Root.EvalErr != nil {
 				c.Undecide("import scenario (%s): %v", mode, ir.Root.EvalErr)
+				continue
+			}
+			if ir.DepErr != nil {
+				c.Undecide("import scenario (%s): an imported package leaves the evaluator's subset: %v", mode, ir.DepErr)
 				continue
 			}
 			want := []string{genfacts.ImpAPath, genfacts.ImpBPath, genfacts.ImpCPath}
